@@ -19,6 +19,7 @@ import vplib
 import datafiles as D
 import C06
 import c08_ties
+import tstone_ties
 
 REL = 1e-11
 
@@ -262,6 +263,15 @@ def run(ctx):
     ctx.extra["violation_classes"] = dict((str(dict(k)), v) for k, v in classes.items())
     ctx.obligation("tie:spellings_load_to_truth", not classes and not faults, "%d violation classes" % len(classes))
     c08_ties.run(ctx, files, broken, info, results)
+    # ---- byte-level models (coq/Files/TsTok.v, TsParse.v, NpdLoad.v) against the code on the same spellings
+    M = tstone_ties.models(ctx)
+    inputs = [(cid, name, text) for cid, (kind, truth, sp, text, name) in info.items()]
+    tstone_ties.tie_loads(ctx, M, inputs, results, "spellings")
+    other = [1, 2, 4, 3, 5, 6, 7]
+    tstone_ties.tie_tokens(ctx, M, [(cid, text) for cid, kind, text in files if kind == "ts"], "spellings",
+                           pick=lambda cid: (0, other[sum(map(ord, cid)) % len(other)]))
+    tstone_ties.tie_npd_scan(ctx, M, [(cid, text) for cid, kind, text in files if kind == "npd"], "spellings")
+    tstone_ties.tie_decorations(ctx, M, files, "spellings", 120 if ctx.tier == "quick" else 1000)
     for b in broken:
         ctx.unproved("C08", b, "%d spellings of %d data sets" % (len(info), nsets))
 
